@@ -116,6 +116,23 @@ pub fn check_sdl(model: &SModel, o: &Opts, sdl: String, st: &mut Stats) -> CaseR
     res
 }
 
+/// Depth of the interface hierarchy of a source description: an interface
+/// counts 1 + the deepest interface among those it implements (0 = no interfaces).
+pub fn interface_chain_depth(m: &SModel) -> usize {
+    fn depth(m: &SModel, n: &str, guard: usize) -> usize {
+        if guard == 0 {
+            return 0;
+        }
+        match m.types.iter().find(|t| t.name == n).map(|t| &t.kind) {
+            Some(SKind::Interface { implements, .. }) => {
+                1 + implements.iter().map(|i| depth(m, i, guard - 1)).max().unwrap_or(0)
+            }
+            _ => 0,
+        }
+    }
+    m.types.iter().map(|t| depth(m, &t.name, 16)).max().unwrap_or(0)
+}
+
 fn export_dynamic(schema: &async_graphql::dynamic::Schema, o: &Opts) -> Result<String, String> {
     let so = o.to_sdl();
     catch(|| schema.sdl_with_options(so))
@@ -195,6 +212,11 @@ fn generated(run: &Run, feat: &Feat) {
                         }
                     };
                     st.add("schemas_built_dynamic", 1);
+                    let chain = interface_chain_depth(&model);
+                    run.seen("interface_chain_depth_seen", &format!("dynamic:{chain}"));
+                    if chain >= 3 {
+                        st.add("schemas_with_interface_chain_depth_ge3", 1);
+                    }
                     for c in &info.text_classes {
                         run.seen("text_classes_generated", c);
                     }
@@ -283,6 +305,11 @@ fn static_family(run: &Run) {
             continue;
         }
         run.seen("static_schemas_checked", s.name);
+        let chain = interface_chain_depth(&s.model);
+        run.seen("interface_chain_depth_seen", &format!("static:{chain}"));
+        if chain >= 3 {
+            run.count("schemas_with_interface_chain_depth_ge3", 1);
+        }
         // the small family is always exported under every option set
         let shards = 16usize;
         std::thread::scope(|sc| {
@@ -417,7 +444,8 @@ pub fn main() {
          custom scalars, input objects, oneOf, arguments with defaults) decorated with descriptions, deprecation reasons, \
          string defaults and directive-argument strings drawn from hostile text classes (quotes, triple quotes, backslashes, \
          control characters, CR, blank edge lines, indentation, non-ASCII), applied directives on every definition kind, \
-         federation attributes; plus a hand-written derive-built family with hand models; every schema exported under \
+         federation attributes; plus a hand-written derive-built family with hand models (incl. four nested derive \
+         interfaces whose objects are registered under the innermost one only); every schema exported under \
          option sets from the full 2^8 x {0,2,8} space, re-parsed by R2 and by parse_schema and compared structurally \
          with the source description. A case = (schema, option set); non-trivial when the schema carries >= 3 decorations; \
          distinct by hash of the exported text",
@@ -459,6 +487,7 @@ pub fn main() {
         "oneof_compared",
         "schema_definitions_compared",
         "static_cases",
+        "schemas_with_interface_chain_depth_ge3",
     ] {
         run.require_counter(c);
     }
